@@ -26,8 +26,23 @@ impl C12 {
         );
         let q = match q {
             Ok(q) => q,
-            Err(_) => {
+            Err(qe) => {
                 c.stats.bump("probe.c12.quote_refused");
+                // a swap that executes has a quote: the query may refuse only what execution refuses
+                let snap = c.fork();
+                let op = Op::Pm {
+                    sender: sender.to_string(),
+                    msg: PmMsg::Swap { ask_asset_denom: ask.to_string(), belief_price: None, max_slippage: half(), receiver: None, pool_identifier: pool.to_string() },
+                    funds: vec![offer.clone()],
+                };
+                let o = c.exec_op(&op, None);
+                c.w.restore(&snap);
+                if o.ok() {
+                    return Err(viol(
+                        "C12.executes_unquoted",
+                        format!("offer {offer} on {pool} for {ask}: the swap executes (return {:?}) but the Simulation query refuses to quote it: {qe}", o.attr("return_amount")),
+                    ));
+                }
                 return Ok(());
             }
         };
@@ -171,10 +186,6 @@ impl C12 {
             c.w.a.pm.to_string(),
             &QueryMsg::SimulateSwapOperations { offer_amount: offer.amount, operations: ops.to_vec() },
         );
-        let q = match q {
-            Ok(q) => q,
-            Err(_) => return Ok(()),
-        };
         let snap = c.fork();
         let op = Op::Pm {
             sender: sender.to_string(),
@@ -183,6 +194,20 @@ impl C12 {
         };
         let o = c.exec_op(&op, None);
         c.w.restore(&snap);
+        let q = match q {
+            Ok(q) => q,
+            Err(qe) => {
+                c.stats.bump("probe.c12.route_quote_refused");
+                // a route that executes has a quote
+                if o.ok() {
+                    return Err(viol(
+                        "C12.executes_unquoted",
+                        format!("route of {n} hops offering {offer}: it executes and pays {:?}, but SimulateSwapOperations refuses to quote it: {qe}", o.attr("return_amount")),
+                    ));
+                }
+                return Ok(());
+            }
+        };
         if !o.ok() {
             let t = o.err_text();
             let last: String = t.rsplit(": ").next().unwrap_or("").chars().filter(|ch| ch.is_ascii_alphabetic() || *ch == ' ').take(48).collect();
